@@ -2204,8 +2204,12 @@ XPathProcessorImpl::LocationPath()
 
     m_expression->appendOpCode(XPathExpression::eOP_LOCATIONPATH);
 
+    bool    fromRoot = false;
+
     if(tokenIs(XalanUnicode::charSolidus) == true)
     {
+        fromRoot = true;
+
         nextToken();
 
         const int   newOpPos = m_expression->opCodeMapLength();
@@ -2223,7 +2227,18 @@ XPathProcessorImpl::LocationPath()
         m_expression->updateOpCodeLength(newOpPos);
     }
 
-    if(m_token.empty() == false)
+    // AbsoluteLocationPath ::= '/' RelativeLocationPath?
+    // After the root, a relative path follows only if the
+    // next token can start a step.
+    if(m_token.empty() == false &&
+       (fromRoot == false ||
+        tokenIs(s_dotString) == true ||
+        tokenIs(s_dotDotString) == true ||
+        tokenIs(XalanUnicode::charAsterisk) == true ||
+        tokenIs(XalanUnicode::charCommercialAt) == true ||
+        tokenIs(XalanUnicode::charSolidus) == true ||
+        tokenIs(XalanUnicode::charLowLine) == true ||
+        XalanXMLChar::isLetter(m_token[0]) == true))
     {
         RelativeLocationPath();
     }
